@@ -312,6 +312,19 @@ def r4_delegation(ctx):
         b = F.bind_args(val, tt, True)
         tp = tt.params[1:4]
         ok = (F.is_name(b.get(tp[0]), p_pitch) and F.is_name(b.get(tp[1]), p_int) and F.is_name(b.get(tp[2]), p_dir))
+        if not ok and F.is_name(b.get(tp[0]), p_pitch) and b.get(tp[1]) is not None and b.get(tp[2]) is not None:
+            # the sign is decided here and to_transposed is always asked to move 'up': the same signed move when, on the path where the
+            # direction equals 'up', the interval is handed over as it is, and negated on the other path
+            okd_, dv_ = ctx.ce.try_eval(b[tp[2]], ta.module)
+            up_atoms = [a_ for a_ in G.atoms_of(cond) if a_.replace(' ', '') in (f"{p_dir}=='up'", f"{p_dir}==Direction.UP.value", f"Direction.UP.value=={p_dir}")]
+            if okd_ and dv_ == 'up' and len(up_atoms) == 1:
+                goes_up = F.forced(cond, up_atoms[0], True)
+                goes_down = F.forced(cond, up_atoms[0], False)
+                iv = src(b[tp[1]]).replace(' ', '')
+                if (goes_up and iv == p_int) or (goes_down and iv in (f'-{p_int}', f'-1*{p_int}', f'0-{p_int}')):
+                    ctx.holds('R4', at, ta.qualname, f'the sign of the move is decided in transpose_agnostics ({iv} under `{G.show(cond)[:40]}`), '
+                                                     f"to_transposed is asked to move 'up' by it")
+                    continue
         ctx.check(ok and cond == ('const', True), 'R4', at, ta.qualname, 'transpose_agnostics-args',
                   'pitch, interval and direction reach AgnosticPitch.to_transposed unchanged',
                   f'arguments are `{src(val)}`')
